@@ -268,7 +268,7 @@ CHECKS = {
                 "revision, renumbered above all others, without a create; a planted different-data object is never overwritten nor adopted as update "
                 "revision. Non-trivial = history with a rollback, a non-template edit between two reconciles, or a planted collision; distinct = case",
         "legs": [{"test": "TestC08", "quick": {"checks": 480, "shards": 8}, "thorough": {"checks": 64000, "shards": 16}}],
-        "floors": {"rollback": 0.03, "non-template-edit-between-reconciles": 0.1, "planted-name-collision": 0.1},
+        "floors": {"rollback": 0.03, "non-template-edit-between-reconciles": 0.1, "planted-name-collision": 0.04},
         "timeout": {"quick": 1500, "thorough": 14400},
         "assumptions": ["template integers stay within int32 (getPatch goes through float64 as upstream does; only two pod fields admit larger values)"] + COMMON_ASSUMPTIONS,
     },
